@@ -102,4 +102,8 @@ def main():
 
 
 if __name__ == "__main__":
-    main()
+    try:
+        main()
+    finally:
+        # a run against a changed tree regenerates coq/gen/*.v from that tree: put the committed files back
+        sh("git checkout -- coq/gen", cwd=VERIF)
